@@ -1322,6 +1322,27 @@ end
 
 end generic
 
+/-! ### running one html filter over a token list -/
+
+/-- the token loop of `filter` over all tokens, then `end()` -/
+def runToks (v : Visitor) (toks : List Tok) : Bytes :=
+  (toks.foldl (stepTok tk ev) (HtmlSt.new v, [])).2 ++ endHtml (toks.foldl (stepTok tk ev) (HtmlSt.new v, [])).1
+
+theorem new_eq_stG (p1 : Bytes) (ps : List Bytes) :
+    HtmlSt.new (vis k sel content [] p1 ps false) = stG k sel content none [] p1 ps := rfl
+
+theorem endHtml_stG (lv : Option Bytes) (before : List Bytes) (cur : Bytes) (after : List Bytes) :
+    endHtml (stG k sel content lv before cur after) = [] := rfl
+
+theorem runToks_AP (hk : k = .append ∨ k = .prepend) (hvt : VtLossless vt) {P : List Bytes} (m : List Bytes)
+    (p1 : Bytes) (ps : List Bytes) (hp1 : p1 ∈ P) (hps : ∀ a ∈ ps, a ∈ P) (doc : List Node)
+    (h : AnyDomAPList tk k sel vt P p1 ps doc) :
+    runToks tk ev (vis k sel content [] p1 ps false) (tokensOfList vt doc) =
+      serializeList (editListD (decOf ev) (opOf k) (selN sel) (.verb content m) p1 ps true doc) := by
+  unfold runToks
+  rw [new_eq_stG, anyList_AP tk ev k sel content vt hk hvt m p1 ps hp1 hps doc [] h, endHtml_stG]
+  simp
+
 /-! ### replace: the whole document -/
 
 /-- replace with a one-element path: every (non-nested) occurrence anywhere is a target -/
@@ -1367,27 +1388,6 @@ theorem runToks_Rn (hvt : VtLossless vt) (m : List Bytes) (p1 a : Bytes) (rest :
     doc [] h]
   simp [endHtml, stX, stG]
 
-
-/-! ### running one html filter over a token list -/
-
-/-- the token loop of `filter` over all tokens, then `end()` -/
-def runToks (v : Visitor) (toks : List Tok) : Bytes :=
-  (toks.foldl (stepTok tk ev) (HtmlSt.new v, [])).2 ++ endHtml (toks.foldl (stepTok tk ev) (HtmlSt.new v, [])).1
-
-theorem new_eq_stG (p1 : Bytes) (ps : List Bytes) :
-    HtmlSt.new (vis k sel content [] p1 ps false) = stG k sel content none [] p1 ps := rfl
-
-theorem endHtml_stG (lv : Option Bytes) (before : List Bytes) (cur : Bytes) (after : List Bytes) :
-    endHtml (stG k sel content lv before cur after) = [] := rfl
-
-theorem runToks_AP (hk : k = .append ∨ k = .prepend) (hvt : VtLossless vt) {P : List Bytes} (m : List Bytes)
-    (p1 : Bytes) (ps : List Bytes) (hp1 : p1 ∈ P) (hps : ∀ a ∈ ps, a ∈ P) (doc : List Node)
-    (h : AnyDomAPList tk k sel vt P p1 ps doc) :
-    runToks tk ev (vis k sel content [] p1 ps false) (tokensOfList vt doc) =
-      serializeList (editListD (decOf ev) (opOf k) (selN sel) (.verb content m) p1 ps true doc) := by
-  unfold runToks
-  rw [new_eq_stG, anyList_AP tk ev k sel content vt hk hvt m p1 ps hp1 hps doc [] h, endHtml_stG]
-  simp
 
 end
 
